@@ -28,7 +28,7 @@ CFG_TIMEOUT = {'quick': 240, 'thorough': 900}
 
 def configs(tier, seed):
     out = []
-    for cid, rn, sk in funcs.instances(tier):
+    for cid, rn, sk in funcs.instances(tier, harness='C09'):
         out.append(('grad/' + cid, dict(kind='grad', recipe=rn, sk=sk)))
         if tier == 'thorough' and sk in ('rn', 'arn', 'discr') and funcs.supports_dim(rn, sk, 3):
             out.append(('grad/%s/n=3' % cid, dict(kind='grad', recipe=rn, sk=sk, n=3)))
